@@ -81,6 +81,7 @@ def Cst.orderOk : Cst → Bool
   | .kw _ _ _ h _ _ _ _ b => h.orderOk && b.orderOk
   | .sel e _ _ _ _ => e.orderOk
   | .selOr e _ _ _ _ _ _ _ d => e.orderOk && d.orderOk
+  | .lam _ _ _ _ _ b => b.orderOk
 /-- An `assert` renders its trailing trivia (`after`) between its `;` and its body: a comment that the
     enclosing sequence attaches to an `assert` item (any comment after it: top level, parentheses) comes
     out in front of the body (`C03.cex_comment_after_assert`). The value of a binding is rendered without
@@ -109,6 +110,7 @@ def Cst.orderOkSeq : Cst → Bool
   | .kw _ _ _ h _ _ _ _ b => h.orderOkSeq && b.orderOkSeq
   | .sel e _ _ _ _ => e.orderOkSeq
   | .selOr e _ _ _ _ _ _ _ d => e.orderOkSeq && d.orderOkSeq
+  | .lam _ _ _ _ _ b => b.orderOkSeq
 def Items.orderOkSeq : Items → Mode → Prev → Bool → Bool → Bool
   | .nil, _, _, _, _ => true
   | .cmt g _ rest, m, prev, pending, hasItem =>
@@ -165,6 +167,7 @@ def Expr.effAfter : Expr → Bool → List Trivia
   | .asrt _ _ _ _ _ a, na => if na then [] else a
   | .sel _ _ _ _ _ a, na => if na then [] else a
   | .selOr _ _ _ _ _ _ _ _ a, na => if na then [] else a
+  | .lam _ _ _ _ _ _ a, na => if na then [] else a
 
 def closedB (ts : List Trivia) : Bool :=
   match ts.getLast? with
@@ -190,6 +193,7 @@ def Expr.inlineCleanB : Expr → Bool
   | .asrt .. => false
   | .sel .. => false
   | .selOr .. => false
+  | .lam .. => false
 def allInlineCleanB : List Expr → Bool
   | [] => true
   | e :: rest => e.inlineCleanB && allInlineCleanB rest
@@ -218,6 +222,7 @@ def Expr.beforeFlatB : Expr → Bool
   | .asrt .. => false
   | .sel .. => false
   | .selOr .. => false
+  | .lam .. => false
 def allBeforeFlatB : List Expr → Bool
   | [] => true
   | e :: rest => e.beforeFlatB && allBeforeFlatB rest
@@ -240,6 +245,7 @@ def Expr.beforeFlatG : Expr → Bool
   | .asrt .. => false
   | .sel .. => false
   | .selOr .. => false
+  | .lam .. => false
 def allBeforeFlatG : List Expr → Bool
   | [] => true
   | e :: rest => e.beforeFlatG && allBeforeFlatG rest
@@ -261,6 +267,7 @@ def Expr.beforeFlatP : Expr → Bool
   | .asrt .. => false
   | .sel .. => false
   | .selOr .. => false
+  | .lam .. => false
 def allBeforeFlatP : List Expr → Bool
   | [] => true
   | e :: rest => e.beforeFlatP && allBeforeFlatP rest
@@ -279,6 +286,7 @@ def Cst.orderOkNA : Cst → Bool
   | .kw _ _ _ h _ _ _ _ b => h.orderOkNA && b.orderOkNA
   | .sel e _ _ _ _ => e.orderOkNA
   | .selOr e _ _ _ _ _ _ _ d => e.orderOkNA && d.orderOkNA
+  | .lam _ _ _ _ _ b => b.orderOkNA
 def Items.orderOkNA : Items → Mode → Prev → Bool → Bool → Bool
   | .nil, _, _, _, _ => true
   | .cmt g _ rest, m, prev, pending, hasItem =>
@@ -307,6 +315,7 @@ def Cst.basic : Cst → Bool
   | .kw .. => false
   | .sel .. => false
   | .selOr .. => false
+  | .lam .. => false
 def Items.basic : Items → Bool
   | .nil => true
   | .cmt _ _ rest => rest.basic
@@ -328,6 +337,7 @@ def Cst.cf : Cst → Bool
   | .kw .. => false     -- the normaliser `Cst.norm` does not cover `with` / `assert` / select yet
   | .sel .. => false
   | .selOr .. => false
+  | .lam .. => false
 def Items.cf : Items → Bool
   | .nil => true
   | .cmt _ _ _ => false
@@ -371,6 +381,7 @@ def Cst.norm : Cst → Nat → Cst
   | .kw w c1 g1 h c2 g2 c3 g3 b, _ => .kw w c1 g1 h c2 g2 c3 g3 b     -- not covered by the normaliser
   | .sel e c1 g1 gd attrs, _ => .sel e c1 g1 gd attrs
   | .selOr e c1 g1 gd attrs c2 g2 g3 d, _ => .selOr e c1 g1 gd attrs c2 g2 g3 d
+  | .lam n c1 g1 c2 g2 b, _ => .lam n c1 g1 c2 g2 b
 /-- items of a container that spans several lines, one per line at indentation `j` -/
 def Items.normML : Items → Nat → Items
   | .nil, _ => .nil
